@@ -2,6 +2,7 @@ package main
 
 import (
 	"fmt"
+	"sort"
 	"go/types"
 
 	"golang.org/x/tools/go/ssa"
@@ -181,6 +182,9 @@ func (e *Exec) cutLoop(fr *Frame, li *loopInfo, st *State) *State {
 	}
 	// entry check
 	env := e.loopEnv(fr, li, st, nil)
+	for _, lm := range spec.Lemmas {
+		e.instLemma(env, lm, st)
+	}
 	for i, inv := range spec.Invariants {
 		g := e.evalBool(env, inv.Expr)
 		lbl := inv.Label
@@ -260,7 +264,7 @@ func (e *Exec) checkBackEdge(fr *Frame, li *loopInfo, from *ssa.BasicBlock, st *
 		if lbl == "" {
 			lbl = fmt.Sprintf("%d", i+1)
 		}
-		e.oblige(st, fmt.Sprintf("loop%d:inv-keep:%s", li.n, lbl), "inv-keep", inv.Tags, g, inv.Text, from.Instrs[len(from.Instrs)-1].Pos())
+		e.oblige(st, fmt.Sprintf("loop%d:inv-keep:%s%s", li.n, lbl, backSuffix(li, from)), "inv-keep", inv.Tags, g, inv.Text, from.Instrs[len(from.Instrs)-1].Pos())
 	}
 	if spec.Decreases != nil {
 		m0 := vInt(e.measures[li.n])
@@ -269,7 +273,7 @@ func (e *Exec) checkBackEdge(fr *Frame, li *loopInfo, from *ssa.BasicBlock, st *
 		if len(tags) == 0 {
 			tags = e.fc.Term
 		}
-		e.oblige(st, fmt.Sprintf("loop%d:decreases", li.n), "decr", tags, sAnd(sx("<=", "0", m0.t()), sx("<", m1.t(), m0.t())), spec.Decreases.Text, from.Instrs[len(from.Instrs)-1].Pos())
+		e.oblige(st, fmt.Sprintf("loop%d:decreases%s", li.n, backSuffix(li, from)), "decr", tags, sAnd(sx("<=", "0", m0.t()), sx("<", m1.t(), m0.t())), spec.Decreases.Text, from.Instrs[len(from.Instrs)-1].Pos())
 	}
 }
 
@@ -297,4 +301,18 @@ func (e *Exec) loopEnv(fr *Frame, li *loopInfo, st *State, from *ssa.BasicBlock)
 		env.vars[phi.Name()] = v
 	}
 	return env
+}
+
+func backSuffix(li *loopInfo, from *ssa.BasicBlock) string {
+	if len(li.backs) <= 1 {
+		return ""
+	}
+	bs := append([]*ssa.BasicBlock{}, li.backs...)
+	sort.Slice(bs, func(i, j int) bool { return bs[i].Index < bs[j].Index })
+	for i, b := range bs {
+		if b == from {
+			return fmt.Sprintf("@edge%d", i+1)
+		}
+	}
+	return ""
 }
